@@ -114,6 +114,11 @@ def run(m, rep, tier):
                         m4.violation(site, '%s is called in %s: blocks must be allocated / released only by the lifetime functions, whose counting M1/M2 check'
                                      % (c.callee, f.name), c.loc(), {})
 
+    # ---- M5: the NDEBUG build does what the assertion build does ---------------------------------
+    from .util import check_assert_effects
+    _ae = rep.rule('M5', 'every store / effectful call made with assertions enabled is also made by the NDEBUG build (no work inside assert())', floor=1)
+    check_assert_effects(m, _ae, ('memory.c', 'memory.h'))
+
 
 def check_balance(m, f, roles, rule):
     """typestate: auto = frozenset of events; memory model tracks the parameter slots"""
@@ -446,6 +451,12 @@ def check_unique(m, rule):
         memberwise = len(fields) >= 2 and all(('$0', st2) in ex and ('$1', st2) in ex for st2 in fields)
         if touched != {'$0', '$1'} and not memberwise:
             bad.append('the clear function / argument pair does not travel with the pointer')
+        # an exchange made only on some paths must be skipped only where the members are already equal
+        from .util import swap_coverage
+        pf = m.pfn('cstl_unique_ptr_swap')
+        cov = swap_coverage(m, pf) if pf is not None else None
+        if cov is not None:
+            bad += [p_ for p_ in cov[4] if 'is skipped' in p_]
         if bad:
             rule.violation('cstl_unique_ptr_swap', '; '.join(bad), floc(m, f), {})
         else:
